@@ -1,12 +1,16 @@
 #!/bin/bash
-# usage: tools_patch.sh <patch.diff (absolute)> <PROP> [tier]  -- apply a patch to /repo, run the check, revert
-# (the committed evidence files are put back afterwards: evidence must come from the unchanged tree)
+# usage: tools_patch.sh <patch.diff (absolute)> <PROP> [tier]  -- apply a patch to a SCRATCH worktree of /repo and
+# run the check against it (VERIF_REPO); /repo itself is never touched. The committed evidence files are put back
+# afterwards: evidence must come from the unchanged tree.
 set -u
-git -C /repo apply "$1" || { echo "patch does not apply"; exit 9; }
-(cd /repo && GOFLAGS=-mod=mod GOPROXY=off GOSUMDB=off GOTOOLCHAIN=local go build ./... ) || { echo "DOES NOT COMPILE"; git -C /repo checkout -- .; exit 9; }
+M=/tmp/repo_mut
+git -C /repo worktree remove --force $M 2>/dev/null; git -C /repo worktree prune
+git -C /repo worktree add -q $M HEAD || exit 9
+git -C $M apply "$1" || { echo "patch does not apply"; git -C /repo worktree remove --force $M; exit 9; }
+(cd $M && GOFLAGS=-mod=mod GOPROXY=off GOSUMDB=off GOTOOLCHAIN=local go build ./... ) || { echo "DOES NOT COMPILE"; git -C /repo worktree remove --force $M; exit 9; }
 rm -rf /tmp/evidence.bak && cp -r /verif/evidence /tmp/evidence.bak
-cd /verif && ./check "$2" "${3:-quick}" > /tmp/patch_out.txt 2>&1; rc=$?
+cd /verif && VERIF_REPO=$M ./check "$2" "${3:-quick}" > /tmp/patch_out.txt 2>&1; rc=$?
 grep -E "SUMMARY|VIOLATION|signature|INFRA|KNOWN" /tmp/patch_out.txt | cut -c1-260; echo "rc=$rc"
-git -C /repo checkout -- .
+git -C /repo worktree remove --force $M
 rm -rf /verif/evidence && mv /tmp/evidence.bak /verif/evidence
 rm -f /verif/replays/*.json
